@@ -14,10 +14,11 @@ Inductive phase :=
 Inductive hev := HDisconnected (forced : bool) | HReconnected | HDial (k delay : Z).
 
 Record rc := { ph : phase; token : bool;       (* a value sits in reconnectC *)
+               halted : bool;                  (* Stop was called and Start has not been called since (repair of F26) *)
                wmin : Z; wrange : Z; wrepeat : Z;
                htr : list hev }.               (* newest first *)
 
-Definition rc0 (mn rg rp : Z) : rc := Build_rc Idle false mn rg rp [].
+Definition rc0 (mn rg rp : Z) : rc := Build_rc Idle false false mn rg rp [].
 
 Inductive rlbl :=
 | LStart                 (* Start succeeds *)
@@ -30,34 +31,37 @@ Inductive rlbl :=
 Definition clamp (x lo hi : Z) : Z := Z.max lo (Z.min x hi).
 
 Definition rcstep (l : rlbl) (s : rc) : rc :=
-  let upd p t tr := Build_rc p t (wmin s) (wrange s) (wrepeat s) tr in
+  let upd p t h tr := Build_rc p t h (wmin s) (wrange s) (wrepeat s) tr in
   match l with
-  | LStart => match ph s with Idle => upd Up false (htr s) | _ => s end     (* Start drains a stale abort token *)
+  | LStart => match ph s with Idle => upd Up false false (htr s) | _ => s end     (* Start drains a stale abort token *)
   | LLose =>
       match ph s with
       | Up =>
           (* disconnected handler, then handleReconnection: an abort token already waiting ends the loop at once *)
           let tr := HDisconnected true :: htr s in
-          if token s then upd Idle false tr else upd (Waiting 1 (wmin s)) false tr
+          if token s then upd Idle false (halted s) tr else upd (Waiting 1 (wmin s)) false (halted s) tr
       | _ => s
       end
   | LDialFail rnd =>
       match ph s with
       | Waiting k d =>
-          if token s then upd Idle false (HDial k d :: htr s)
+          if token s then upd Idle false (halted s) (HDial k d :: htr s)
           else let d' := if k <? wrepeat s then 2 * d + clamp rnd 0 (wrange s) else d in
-               upd (Waiting (k + 1) d') false (HDial k d :: htr s)
+               upd (Waiting (k + 1) d') false (halted s) (HDial k d :: htr s)
       | _ => s
       end
   | LDialOk =>
       match ph s with
-      | Waiting k d => upd Up (token s) (HReconnected :: HDial k d :: htr s)     (* a token put meanwhile is not looked at *)
+      | Waiting k d =>
+          (* a connection established after Stop was called is dropped at once: no handler, the loop ends *)
+          if halted s then upd Idle (token s) true (HDial k d :: htr s)
+          else upd Up (token s) false (HReconnected :: HDial k d :: htr s)
       | _ => s
       end
   | LStop =>
       match ph s with
-      | Up => upd Idle (negb (token s)) (HDisconnected false :: htr s)
-      | _ => upd (ph s) (negb (token s)) (htr s)
+      | Up => upd Idle (negb (token s)) true (HDisconnected false :: htr s)
+      | _ => upd (ph s) (negb (token s)) true (htr s)
       end
   end.
 
@@ -110,19 +114,45 @@ Theorem stop_while_dialing_then_fail : forall s k d rnd, ph s = Waiting k d -> t
   ph (rcstep (LDialFail rnd) (rcstep LStop s)) = Idle.
 Proof.
   intros s k d rnd H Ht.
-  assert (S1 : rcstep LStop s = Build_rc (Waiting k d) true (wmin s) (wrange s) (wrepeat s) (htr s)).
+  assert (S1 : rcstep LStop s = Build_rc (Waiting k d) true true (wmin s) (wrange s) (wrepeat s) (htr s)).
   { unfold rcstep. rewrite H, Ht. reflexivity. }
   rewrite S1. reflexivity.
 Qed.
 
-(** ... but if that dial succeeds the client is connected again although Stop was called (finding F26) *)
-Theorem stop_while_dialing_then_ok_refuted : forall s k d, ph s = Waiting k d -> token s = false ->
-  ph (rcstep LDialOk (rcstep LStop s)) = Up.
+(** ... and if that dial succeeds the fresh connection is dropped: the client stays unconnected and no reconnected
+    notification is delivered (before the repair of F26 it ended up connected although Stop had been called) *)
+Theorem stop_while_dialing_then_ok : forall s k d, ph s = Waiting k d ->
+  ph (rcstep LDialOk (rcstep LStop s)) = Idle /\
+  htr (rcstep LDialOk (rcstep LStop s)) = HDial k d :: htr s.
 Proof.
-  intros s k d H Ht.
-  assert (S1 : rcstep LStop s = Build_rc (Waiting k d) true (wmin s) (wrange s) (wrepeat s) (htr s)).
-  { unfold rcstep. rewrite H, Ht. reflexivity. }
-  rewrite S1. reflexivity.
+  intros s k d H.
+  assert (S1 : rcstep LStop s = Build_rc (Waiting k d) (negb (token s)) true (wmin s) (wrange s) (wrepeat s) (htr s)).
+  { unfold rcstep. rewrite H. reflexivity. }
+  rewrite S1. split; reflexivity.
+Qed.
+
+(** generally: from a Stop until the next Start no step makes the client connected *)
+Theorem halted_never_up : forall l s, halted s = true -> ph s <> Up -> l <> LStart ->
+  halted (rcstep l s) = true /\ ph (rcstep l s) <> Up.
+Proof.
+  intros l s Hh Hp Hl. destruct s as [p t h mn rg rp tr]. cbn in *. subst h.
+  destruct l; try congruence; destruct p; cbn; try congruence;
+    repeat match goal with |- context [if ?b then _ else _] => destruct b end; cbn;
+    split; try reflexivity; try discriminate; try congruence.
+Qed.
+
+Theorem halted_never_up_run : forall ls s, halted s = true -> ph s <> Up -> ~ In LStart ls ->
+  ph (rcrun ls s) <> Up.
+Proof.
+  induction ls as [|l ls IH]; intros s Hh Hp Hn; [exact Hp|].
+  cbn [rcrun fold_left]. fold (rcrun ls (rcstep l s)).
+  destruct (halted_never_up l s Hh Hp) as [H1 H2]; [intros E; apply Hn; left; exact E|].
+  apply IH; [exact H1|exact H2|intros X; apply Hn; right; exact X].
+Qed.
+
+Theorem never_connected_after_stop : forall ls s, ~ In LStart ls -> ph (rcrun ls (rcstep LStop s)) <> Up.
+Proof.
+  intros ls s Hn. apply halted_never_up_run; [| |exact Hn]; unfold rcstep; destruct (ph s); cbn; congruence.
 Qed.
 
 (** once idle after a Stop, nothing but Start connects again *)
@@ -140,7 +170,7 @@ Theorem start_is_fresh : forall s, ph s = Idle ->
   ph (rcstep LLose (rcstep LStart s)) = Waiting 1 (wmin s).
 Proof.
   intros s H.
-  assert (S1 : rcstep LStart s = Build_rc Up false (wmin s) (wrange s) (wrepeat s) (htr s)) by (unfold rcstep; rewrite H; reflexivity).
+  assert (S1 : rcstep LStart s = Build_rc Up false false (wmin s) (wrange s) (wrepeat s) (htr s)) by (unfold rcstep; rewrite H; reflexivity).
   rewrite S1. cbn. auto.
 Qed.
 
@@ -185,7 +215,9 @@ Qed.
 Fixpoint dec_rl (l : list Z) : list rlbl :=
   match l with
   | 1 :: r => LStart :: dec_rl r | 2 :: r => LLose :: dec_rl r | 3 :: r => LDialFail 0 :: dec_rl r
-  | 4 :: r => LDialOk :: dec_rl r | 5 :: r => LStop :: dec_rl r | _ => []
+  | 4 :: r => LDialOk :: dec_rl r | 5 :: r => LStop :: dec_rl r
+  | 6 :: r => LLose :: dec_rl r | 7 :: r => LLose :: dec_rl r      (* the server ends the connection with a close frame *)
+  | _ => []
   end.
 
 Definition c17_entry : entry := fun inp =>
